@@ -66,6 +66,15 @@ def origin(fn, n, use=None):
             n = a
             continue
         decls = [(e, v) for e in fn.all_events() if e.kind == "decl" for v in e.node["vars"] if v["n"] == n["n"]]
+        if len(decls) > 1 and use is not None:
+            # the name is declared in several scopes: the declaration in force is the one that dominates the use
+            dom_ = dominators(fn)
+            decls = [d for d in decls if ev_dominates(fn, d[0], use, dom_)]
+            if len(decls) > 1:
+                decls = [d for d in decls if all(o is d or ev_dominates(fn, o[0], d[0], dom_) for o in decls)]
+            scoped = True
+        else:
+            scoped = False
         if len(decls) != 1 or decls[0][1].get("init") is None:
             return n
         name = n["n"]
@@ -77,7 +86,7 @@ def origin(fn, n, use=None):
                         rewritten = True
                     if x["k"] == "un" and x["op"] in ("addr", "pre++", "pre--", "post++", "post--") and (fn.d(x["a"][0]) or {}).get("k") == "var" and fn.d(x["a"][0])["n"] == name:
                         rewritten = True
-        if rewritten:
+        if rewritten and not scoped:
             return n
         init = uncast(fn, decls[0][1]["init"])
         if use is not None and init is not None and init["k"] == "call":
